@@ -358,7 +358,15 @@ func (r *Reader) extractParagraph(p *pXML) Paragraph {
 
 	// Get paragraph properties
 	if p.PPr != nil {
+		// Bullet levels run from 0 to 8; the attribute is read from the file and
+		// drives indentation loops, so a value outside that range is clamped
 		para.Level = p.PPr.Lvl
+		if para.Level < 0 {
+			para.Level = 0
+		}
+		if para.Level > 8 {
+			para.Level = 8
+		}
 		para.Alignment = p.PPr.Algn
 
 		// Check for bullets
